@@ -79,7 +79,7 @@ CHECKS["C06"] = {
 CHECKS["C16"] = {
     "script": "c16.py", "category": "model_checking",
     "technique": "stateless model checking (DPOR + sleep sets, virtual time) of the real tokens_t/runSession/datachannelHandler with a scripted broker and two build-time seams for the pion-facing functions, explicit enumeration of session-outcome sequences",
-    "text": U + " for capacity in {1,2,3} x all sequences of <=3 (4) session outcomes over 10 exit paths incl. the data channel opening in the instant of the 20 s timeout, sessions overlapping; oracle: slots in use <= capacity, every reported Clients value a multiple of 8 and <= slots in use, after the sequence count()==0 with an empty token channel, nobody blocked in a token operation, the proxy keeps polling.",
+    "text": U + " for capacity in {1,2,3} x all sequences of <=3 (4) session outcomes over 11 exit paths incl. the data channel opening in the instant of the 20 s timeout and an answer request that fails although the client connects, sessions overlapping; oracle: slots in use <= capacity, every reported Clients value a multiple of 8 and <= slots in use, after the sequence count()==0 with an empty token channel, nobody blocked in a token operation, the proxy keeps polling.",
     "design_ref": "§3 C16", "note": SCHED_NOTE + " Seams: makePeerConnectionFromOffer (real unconnected PeerConnection + scripted OnDataChannel contract) and copyLoop; Start()'s polling loop is copied verbatim. Harness c16-load: capacity 16 with clients leaving while the proxy polls. Tier 2 (real time): the real SnowflakeProxy.Start with real pion clients in the same process (echo, close at open, never answers, stalls during a download, unreachable relay, relay that accepts and never answers the WebSocket handshake, undecodable offer, a broker answering polls with 502 pages or the /answer request with a 503 page; capacities 1-3); it marks itself incomplete where in-process WebRTC cannot connect.",
 }
 CHECKS["C07"] = {
